@@ -153,3 +153,106 @@ def _row_unit(kind):
 
 
 U_NSF_ROW = [_row_unit("element"), _row_unit("isotope")]
+
+
+# ==============================================================================  C06: mass.init, abundance pass (loop 3)
+
+MASS = "periodictable.mass"
+PU_VAL = z3.Function("parse_uncertainty_value", z3.StringSort(), z3.RealSort())
+PU_UNC = z3.Function("parse_uncertainty_unc", z3.StringSort(), z3.RealSort())
+
+
+def c_parse_uncertainty(interp, st, args, kw):
+    s = interp.resolve(st, args[0])
+    s = z3.StringVal(s) if isinstance(s, str) else s
+    return VTuple([PU_VAL(s), PU_UNC(s)])
+
+
+def _ab_inputs(kind):
+    def mk(st, interp):
+        use_state(st)
+        line = st.fresh("line", z3.StringSort())
+        first = z3.SubString(line, 0, 1)
+        is_header = z3.Not(z3.Contains(z3.StringVal(" \t"), first))
+        st.assume(z3.Length(line) >= 1)
+        st.assume(is_header if kind.startswith("header") else z3.Not(is_header))
+        tok0, tok1 = st.fresh("token0", z3.StringSort()), st.fresh("token1", z3.StringSort())
+        st.assume(z3.And(z3.InRe(tok0, z3.Plus(z3.Range("0", "9"))), z3.Length(tok0) <= 3))
+
+        def split(interp_, st_, s, args):
+            if not args:
+                return VList([tok0, tok1, st_.fresh("token2", z3.StringSort())])
+            raise Unsupported("split with a separator")
+        st.ghost["str_split"] = split
+        z = st.fresh("z", z3.IntSort())
+        st.assume(z >= 0)
+        if kind == "header-first":
+            st.assume(z == 0)
+        elif kind == "header-next":
+            st.assume(z > 0)
+        A = [st.fresh("A%d" % i, z3.IntSort()) for i in range(2)]
+        v = [st.fresh("v%d" % i, z3.RealSort()) for i in range(2)]
+        dv = [st.fresh("dv%d" % i, z3.RealSort()) for i in range(2)]
+        st.assume(z3.And(A[0] != A[1], A[0] > 0, A[1] > 0, v[0] > 0, v[1] > 0))
+        # within one element block every mass number occurs once (closed data fact, C06 eval)
+        st.assume(z3.And(z3.StrToInt(tok0) != A[0], z3.StrToInt(tok0) != A[1]))
+        value = VDict([[A[i], VTuple([v[i], dv[i]])] for i in range(2)])
+        writes = []
+        st.ghost["atom_setattr"] = lambda i_, s_, a, name, val, node: writes.append((a.expr, name, val))
+        st.ghost["atom_getitem"] = lambda i_, s_, a, idx, node: ATOMS.sym(s_, KC.ISOTOPE_OF(a.expr, to_z3num(idx)))
+        table = VObj("TargetTable", {})
+        holder.clear()
+        holder.update({"line": line, "z": z, "value": value, "table": table})
+        return [], {}, dict(kind=kind, z=z, A=A, v=v, dv=dv, writes=writes, tok0=tok0, tok1=tok1, value=value)
+    holder = {}
+    mk.holder = holder
+    return mk
+
+
+def _ab_post(st, interp, C, res):
+    if res.outcome == "raise":
+        st.oblige("never-raises on a well-formed table line", False, kind="raises", info={"exc": res.exc, "line": res.lineno})
+        return
+    kind, z, A, v, dv, writes = C["kind"], C["z"], C["A"], C["v"], C["dv"], C["writes"]
+    out = res.value
+    ok = isinstance(out, VTuple) and len(out.items) == 2
+    st.oblige("post.state after the line", z3.BoolVal(ok))
+    if not ok:
+        return
+    z2, value2 = out.items
+    if kind == "data":
+        st.oblige("post.a data line leaves the current element unchanged", spec.eq_goal(interp, st, z2, z))
+        ok = isinstance(value2, VDict)
+        ents = value2.entries if ok else []
+        new = [e for e in ents if not any(e[0] is a for a in A)]
+        st.oblige("post.a data line records parse_uncertainty(second token) under the mass number of the first token",
+                  z3.BoolVal(len(new) == 1 and len(ents) == 3) if not (len(new) == 1 and len(ents) == 3)
+                  else z3.And(to_z3num(new[0][0]) == z3.StrToInt(C["tok0"]),
+                              spec.eq_goal(interp, st, new[0][1], VTuple([PU_VAL(C["tok1"]), PU_UNC(C["tok1"])]))))
+        st.oblige("frame.a data line writes no atom", z3.BoolVal(len(writes) == 0), kind="frame")
+        return
+    st.oblige("post.a header line starts the element named by its first token", to_z3num(z2) == z3.StrToInt(C["tok0"]))
+    st.oblige("post.a header line starts with an empty composition", z3.BoolVal(isinstance(value2, VDict) and not value2.entries))
+    if kind == "header-first":
+        st.oblige("frame.the first header flushes nothing", z3.BoolVal(len(writes) == 0), kind="frame")
+        return
+    el = KC.TT_EL(z)
+    total = v[0] + v[1]
+    st.oblige("post.the previous element is flushed: two isotopes x (abundance, uncertainty)", z3.BoolVal(len(writes) == 4))
+    for i in range(2):
+        iso = KC.ISOTOPE_OF(el, A[i])
+        for name, num in (("_abundance", v[i]), ("_abundance_unc", dv[i])):
+            w = [val for (a, n, val) in writes if n == name and z3.eq(z3.simplify(a), z3.simplify(iso))]
+            st.oblige("post.flush: isotope %d %s == 100 * value / sum of the element's values" % (i, name),
+                      z3.BoolVal(len(w) == 1) if len(w) != 1 else to_real(w[0]) * total == 100 * num)
+
+
+def _ab_unit(kind):
+    mk = _ab_inputs(kind)
+    return Unit("mass.init::abundance loop[%s line]" % kind, MASS + ".init::loop#3>z,value", mk, _ab_post,
+                closure=lambda interp: [mk.holder],
+                contracts={"periodictable.util.parse_uncertainty": c_parse_uncertainty, "TargetTable.__getitem__": KC.c_tt_getitem},
+                options={"div_zero": "branch"}, replay={"module": "c06", "task": "replay"})
+
+
+U_MASS_ABUNDANCE_LOOP = [_ab_unit(k) for k in ("data", "header-first", "header-next")]
